@@ -6,6 +6,7 @@ import pathlib
 import shutil
 
 from . import ser_common as sc
+from . import c01_ext as cx
 
 LEVEL = "proof"
 MANIFEST_ENTRY = {
@@ -305,6 +306,9 @@ def run(ctx):
                 idx += 1
         signature_tie(ctx)
         seqkeys_stream(ctx, drv)
+        cx.numeric_stream(ctx, drv)
+        cx.resolve_stream(ctx, drv)
+        cx.history_stream(ctx, drv)
         # fixed probe of a recorded finding (int/float promotion in the ndarray fast path)
         probe = ["obj", "SA", [["a", ["list", [["scalar", ["int", str(2 ** 62 + 1)]], ["scalar", sc.S(0.5)]]]]]]
         check_case(ctx, drv, probe, [gen_cfg(ctx.rng.fork(999), "zip")], "probe")
@@ -333,6 +337,15 @@ def replay(ctx, rep):
     try:
         if case.get("seqkeys"):
             seqkeys_stream(ctx, drv)
+            return True
+        if case.get("history"):
+            cx.run_history(ctx, drv, case, "replay")
+            return True
+        if case.get("save_args"):
+            cx.resolve_case(ctx, drv, case, "replay")
+            return True
+        if case.get("numeric_scalar"):
+            cx.numeric_stream(ctx, drv)
             return True
         check_case(ctx, drv, case["recipe"], case["cfgs"], "replay")
     finally:
